@@ -17,6 +17,7 @@ package internal
 import (
 	"maps"
 	"net/http"
+	"strings"
 	"time"
 )
 
@@ -58,7 +59,8 @@ func (r *responseStorer) StoreResponse(
 	// Remove hop-by-hop headers as per RFC 9111 §3.1
 	removeHopByHopHeaders(resp)
 
-	vary := resp.Header.Get("Vary")
+	// All Vary field lines count (RFC 9110 §5.3): they are one list.
+	vary := strings.Join(resp.Header.Values("Vary"), ", ")
 	varyResolved := maps.Collect(
 		r.vhn.NormalizeVaryHeader(vary, req.Header),
 	)
